@@ -293,9 +293,9 @@ class ExecSim(object):
 
     MAX_STEPS = 6000
 
-    def __init__(self, spawner='POPEN'):
+    def __init__(self, spawner='POPEN', session=None, baton=None, psbox=None):
         self.problems = []
-        self.baton = Baton()
+        self.baton = baton or Baton()
         self._nlock = 0
         self._npid  = 0
         self.procs, self.proc_of, self.handles = [], {}, []
@@ -305,17 +305,28 @@ class ExecSim(object):
         self.spawner = spawner
 
         base = boot.fresh_dir('exec.')
-        self.sess = HollowSession(module='pilot.0000', uid='rp.session.verif.exec', sandbox=base)
+        self.sess = session or HollowSession(module='pilot.0000', uid='rp.session.verif.exec',
+                                             sandbox=base)
         sb = '%s/rsbox' % base
-        self.sess._cfg.update({'pid': 'pilot.0000', 'resource': 'local.localhost',
-                               'resource_sandbox': sb,
-                               'session_sandbox': '%s/%s' % (sb, self.sess.uid),
-                               'pilot_sandbox': '%s/%s/pilot.0000' % (sb, self.sess.uid)})
+        if psbox:
+            # <resource sandbox>/<sid>/<pid>
+            ssb = os.path.dirname(psbox.rstrip('/'))
+            sb  = os.path.dirname(ssb)
+            self.sess._cfg.update({'pid': 'pilot.0000', 'resource': 'local.localhost',
+                                   'resource_sandbox': sb, 'session_sandbox': ssb,
+                                   'pilot_sandbox': psbox.rstrip('/')})
+        else:
+            self.sess._cfg.update({'pid': 'pilot.0000', 'resource': 'local.localhost',
+                                   'resource_sandbox': sb,
+                                   'session_sandbox': '%s/%s' % (sb, self.sess.uid),
+                                   'pilot_sandbox': '%s/%s/pilot.0000' % (sb, self.sess.uid)})
         self.psbox = self.sess._cfg['pilot_sandbox']
         os.makedirs(self.psbox, exist_ok=True)
-        self.sess._rcfg = ru.Config(cfg={'resource_manager': 'FAKE', 'agent_spawner': spawner,
-                                         'new_session_per_task': False,
-                                         'task_tmp': '%s/tmp' % base})
+        rcfg = {'resource_manager': 'FAKE', 'agent_spawner': spawner,
+                'new_session_per_task': False, 'task_tmp': '%s/tmp' % base}
+        if session is not None and session._rcfg:
+            rcfg = dict(session._rcfg.as_dict(), **rcfg)
+        self.sess._rcfg = ru.Config(cfg=rcfg)
         os.environ['TMPDIR'] = '%s/tmp' % base
         self.net = self.sess.net
         reg = self.sess._reg
